@@ -1104,7 +1104,10 @@ def _fill_sample_metadata(sample: dict, api_schema: api.API):
     snippet_metadata.client_method.client.short_name = (
         service.async_client_name if async_ else service.client_name
     )
-    snippet_metadata.client_method.client.full_name = f"{'.'.join(sample['module_namespace'])}.{sample['module_name']}.{snippet_metadata.client_method.client.short_name}"
+    snippet_metadata.client_method.client.full_name = ".".join(
+        tuple(sample["module_namespace"])
+        + (sample["module_name"], snippet_metadata.client_method.client.short_name)
+    )
 
     # Service
     snippet_metadata.client_method.method.service.short_name = service.name
